@@ -16,12 +16,12 @@ def main(tier, only):
         if tier == "quick" and ci % 2 == 1 and ci != 1:
             continue      # quick tier: every second constraint gets the clock-driven obligations
         cfgs.append(dict(tag="timeout.c%d" % ci, env={"VERIF_FIX": "0=%d,1=2,2=2,3=1,4=0,5=7,6=0,7=0" % ci, "VERIF_NSOL": nsol, "VERIF_CALL_LIMIT": "10",
-                                                        "VERIF_MODE": "c02", "VERIF_IGNORED_LOG": log, "VERIF_CONFIGURED": "1"}, only=["timeout"], timeout=cfgs[0]["timeout"]))
+                                                        "VERIF_MODE": "c02", "VERIF_IGNORED_LOG": log, "VERIF_CONFIGURED": "1"}, only=["timeout"], timeout=cfgs[0]["timeout"], timing_dependent=True))
         # no timeout configured, unsat support on: its internal 2 s budget must not surface as TimeoutError
         if tier == "quick" and ci in (2, 7, 8, 10):
             continue      # exceed the wall-clock guard with unsat support (thorough tier only)
         cfgs.append(dict(tag="unsat-support.c%d" % ci, env={"VERIF_FIX": "0=%d,1=2,2=2,3=1,4=0,5=7,6=0,7=1" % ci, "VERIF_NSOL": nsol, "VERIF_CALL_LIMIT": "10",
-                                                              "VERIF_MODE": "c02", "VERIF_IGNORED_LOG": log, "VERIF_CONFIGURED": "0"}, only=["timeout"], timeout=cfgs[0]["timeout"]))
+                                                              "VERIF_MODE": "c02", "VERIF_IGNORED_LOG": log, "VERIF_CONFIGURED": "0"}, only=["timeout"], timeout=cfgs[0]["timeout"], timing_dependent=True))
     res = xh.check_many("C02", HARNESS, cfgs, twin_timeout=200)
     xh.record(run, res, "", keyfn)
     ignored = open(log).read().splitlines() if os.path.exists(log) else []
